@@ -599,3 +599,19 @@ def replay_lmc(model, params, clause, info):
             det = f"max mean diff {(out.mean - mean).abs().max().item():.2e}, max covariance diff {(out.covariance_matrix - cov).abs().max().item():.2e}"
     return {"violates": bool(bad), "detail": f"LMC ({mode}), L={L}, T={T}, jitter_val={jit}: {det}",
             "entry": {"module": "contracts.C14_variational", "function": "replay_lmc", "args": [model, list(params), clause, info]}}
+
+
+@case("C14", clause="closed_form_lemmas", name="closed_form_lemmas", expand=lambda ix: [()], replay=None, timeout=1500,
+      functions=["gpytorch.variational.variational_strategy.VariationalStrategy.forward", f"{UV}.forward", "gpytorch.variational.variational_strategy.VariationalStrategy.prior_distribution"])
+def closed_form_lemmas(c):
+    """lemmas over the contracts above (Lean 4 / Mathlib, lean/Variational.lean; real matrices, L and Kzz invertible): the forms the contracts pin down ARE the
+    property's closed form, so whitened and unwhitened strategies describing the same q(u) (S = L S~ L^T, m = mz + L m~, Kzz = L L^T) give the same q(f) and KL:
+      whitened_cov_eq    Kxx + A^T (S~ - 1) A,  A = L^-1 Kzx                          =  Kxx - Kxz Kzz^-1 (Kzz - S) Kzz^-1 Kzx
+      whitened_mean_eq   A^T m~                                                       =  Kxz Kzz^-1 (L m~)
+      unwhitened_cov_eq  Kxx - Kxz Kzz^-1 Kzx + INV^T INV,  INV = R^T Kzz^-1 Kzx      =  Kxx - Kxz Kzz^-1 (Kzz - R R^T) Kzz^-1 Kzx
+      kl_trace_eq / kl_quad_eq / kl_det_eq   tr(Kzz^-1 S) = tr S~,  (L m~)^T Kzz^-1 (L m~) = m~^T m~,  det S = det Kzz det S~
+                         (the three terms of KL(N(mz + L m~, S) || N(mz, Kzz)) equal those of KL(N(m~, S~) || N(0, I)): the whitened kl_divergence() IS KL(q(u) || p(u)))"""
+    c.ctx.assumptions.add("Lean 4.33 kernel and Mathlib are trusted for lean/Variational.lean; the lemmas are over real matrices (the jitter the code adds is part of Kzz in the lemmas; "
+                          "rounding is covered by the bounded tier only)")
+    for th in ("whitened_cov_eq", "whitened_mean_eq", "unwhitened_cov_eq", "kl_trace_eq", "kl_quad_eq", "kl_det_eq"):
+        c.prove_lemma(f"lemma.{th}", "Variational.lean", th)
